@@ -43,6 +43,13 @@ def go (ok : Nat → Bool) (cont : Bool) : Nat → List Elem → Out
     let r := if fails ok i e && !cont then ⟨[], [], false⟩ else go ok cont (i + 1) es
     ⟨answer ok i e :: r.results, (if called e then [i] else []) ++ r.calls, fails ok i e || r.failed⟩
 
+
+/-- `sharedapi.QueryParamBool(r, "continueOnFailure")`: the value of the query parameter, lower-cased, is `1` or `true`;
+`none` = the parameter is absent (a bare `?continueOnFailure` has the empty value). -/
+def contFlag : Option String → Bool
+  | none => false
+  | some v => v.toLower == "1" || v.toLower == "true"
+
 def processBulk (ok : Nat → Bool) (cont : Bool) (es : List Elem) : Out := go ok cont 0 es
 
 /-- HTTP status written by `bulkHandler` -/
